@@ -50,12 +50,39 @@ def loadable_triples(draw):
 
 
 @st.composite
+def repeated_block_records(draw):
+    """The same block of events twice, separated by a gap in the water-level
+    record: every storm and rise of the second data interval sits at the
+    same position relative to its interval as its twin in the first (per-run
+    state keyed by relative position would collide)."""
+    from vfw.props.C02 import chain_records
+    base = draw(st.one_of(gen_records.scenario_records(
+        max_events=6, min_events=3, allow_gaps=False), chain_records()))
+    dt = base['dt']
+    rain = [v for _, v in base['rain']]
+    levels = [v for _, v in base['wl']]
+    gap = draw(st.integers(1, 3))
+    n = len(rain)
+    shift = n + gap + 1
+    rain2 = rain + [0.0] * (gap + 1) + rain
+    wl = [[k * dt, v] for k, v in enumerate(levels)] + [
+        [(shift + k) * dt, v] for k, v in enumerate(levels)]
+    et = [[i, 0.125] for i in range(-1, len(rain2) + 3)]
+    record = dict(base)
+    record.update({'rain': [[i, v] for i, v in enumerate(rain2)], 'wl': wl,
+                   'et': et, 'gen': 'repeated-block'})
+    record.pop('fine_removed', None)
+    return record
+
+
+@st.composite
 def cases(draw, tier):
     from vfw.props.C02 import contention_records, chain_records
     record = draw(st.one_of(
         gen_records.records(max_steps=30 if tier == 'quick' else 60),
         contention_records(), chain_records(),
-        gen_records.float_records(), loadable_triples()))
+        gen_records.float_records(), loadable_triples(),
+        repeated_block_records()))
     record['cli'] = draw(st.integers(0, 9)) == 0
     return record
 
